@@ -8,22 +8,26 @@
   peer sends are inputs of the steps: the theorems hold for all of them.
 
   Hypotheses (`WFRun`, see `Op.wf`):
-    * `transportParams tp`: `tp.monotone c` — transport parameters do not
-      reduce `_remote_max_data` / `_remote_max_streams_*`.  MAX_* frames are
-      monotone by construction (the handlers keep the max); the transport
-      parameters that replace the values remembered for 0-RTT are assigned
-      without comparison by `_parse_transport_parameters`, so this is a
-      hypothesis on the peer (RFC 9000 §7.4.1: a server MUST NOT reduce them);
-      `tp_reduction_counterexample` shows it is needed.  It CANNOT be derived:
-      the real code lowers `_remote_max_data` / `_remote_max_streams_*` when a server
-      answers a 0-RTT attempt with smaller parameters (exhibited on the real
-      connection by checks/c06.py `lowered_params_exhibit`, finding candidate
-      C06-0rtt-lowered-parameters).  What CAN be derived is proved below:
-      frames never lower a limit (`remote_limits_monotone`, all operation sequences
-      without `transportParams`, no hypothesis), the hypothesis is exactly
-      "transportParams does not lower" (`tp_hypothesis_iff`), and it holds by itself
-      when transport parameters are applied once to a connection that does not
-      resume (`invariant_single_handshake`: only 0-RTT resumption needs it).
+    * `transportParams tp`: `tp.guarded c ∨ tp.monotone c`.  MAX_* frames are monotone
+      by construction (the handlers keep the max, `remote_limits_monotone`).
+      `_parse_transport_parameters` has three kinds of applications:
+      (1) the first one, on limits that are still 0 (server; client without
+          resumption; the remembered parameters loaded by a resuming client) —
+          monotone by itself (`invariant_single_handshake`);
+      (2) `tp.checked`: the handshake parameters of a server that ACCEPTED this
+          client's early data — the code compares each of the six parameters with
+          the remembered value and closes with PROTOCOL_VIOLATION when one is smaller
+          (`reduced_params_refused`), so the clause holds by construction
+          (`guarded`) and the main theorems need no hypothesis on the peer:
+          `invariant_resumed_accepted`; `tp_reduction_counterexample` /
+          `tp_stream_reduction_counterexample` show the behaviour before that fix
+          (quirk `acceptReducedParams`);
+      (3) the handshake parameters of a server that REJECTED the early data: they
+          are assigned without comparison and nothing else is done (no stream is
+          reset, `_remote_max_data_used` and the per-stream limits of the streams
+          opened in 0-RTT stay).  A server may choose any parameters there, so
+          `tp.monotone c` remains a hypothesis for exactly this case;
+          `tp_rejected_counterexample` shows the property fails without it.
     * `dataDelivery` / `resetDelivery`: the stream is not blocked — delivery
       reports exist only for frames that were emitted (recovery, C08), and no
       frame is emitted for a blocked stream (`stream_count`).
@@ -236,23 +240,58 @@ theorem invariant_single_handshake (c0 : Conn) (hf : Fresh c0)
   have hwf := wfRun_single_handshake c0 (by simp [rl, h0]) pre post tp hpre hpost hd
   exact ⟨hwf, invariant c0 hf _ hwf⟩
 
-/-- What the real code does when a server answers 0-RTT with a SMALLER per-stream
-    limit (exhibited on a real connection, see header): the stream opened under the
-    remembered limit 5000 keeps it, and after the handshake parameters (limit 2 for
-    such streams) NEW data is sent at offsets 3..5.  `TP.monotone` does not mention
-    the per-stream parameters: `stream_limit` is about `max_stream_data_remote` of
-    the stream object (value at creation, raised by MAX_STREAM_DATA), which a
-    compliant server (RFC 9000 §7.4.1) never undercuts. -/
-theorem tp_stream_reduction_example :
+/-- A resuming client whose early data is accepted: the remembered parameters are
+    loaded when it connects (`remembered`, on limits that are still 0), every later
+    application of transport parameters is a checked one (`AllTPChecked rest`).  The
+    send-side invariant — `credit_ledger`, `stream_limit`, `conn_limit`,
+    `stream_count` — holds WITHOUT any hypothesis on the server's parameters: the
+    code refuses reduced ones.  (`rest` without `transportParams`: no resumption.)
+    Remaining hypothesis: the delivery clause `WFRunD`. -/
+theorem invariant_resumed_accepted (c0 : Conn) (hf : Fresh c0)
+    (hq : c0.quirks.raiseBeforeWrite = false ∧ c0.quirks.acceptReducedParams = false)
+    (h0 : c0.remoteMaxData = 0 ∧ c0.remoteMaxStreamsBidi = 0 ∧ c0.remoteMaxStreamsUni = 0)
+    (pre rest : List Op) (remembered : TP)
+    (hpre : ∀ op ∈ pre, op.touchesRemote = false) (hrest : AllTPChecked rest)
+    (hd : WFRunD c0 (pre ++ .transportParams remembered :: rest)) :
+    WFRun c0 (pre ++ .transportParams remembered :: rest) ∧
+    Inv (runState c0 (pre ++ .transportParams remembered :: rest)) := by
+  have hwf := wfRun_resumed_accepted c0 hq (by simp [rl, h0]) pre rest remembered hpre hrest hd
+  exact ⟨hwf, invariant c0 hf _ hwf⟩
+
+/-- what a checked application does, in any state: it refuses — the connection
+    closes with PROTOCOL_VIOLATION, the state is untouched and nothing is written —
+    exactly when one of the six parameters (absent = 0) is below the remembered
+    value; otherwise it assigns and none of the six limits has decreased (the
+    per-stream ones included, which `TP.monotone` does not mention). -/
+theorem reduced_params_refused (c : Conn) (tp : TP) (hg : tp.guarded c) :
+    (tp.reduced c = true ∧ step c (.transportParams tp) = (c, Out.connError PROTOCOL_VIOLATION)) ∨
+    (tp.reduced c = false ∧ (step c (.transportParams tp)).2 = {} ∧
+      c.remoteMaxData ≤ (step c (.transportParams tp)).1.remoteMaxData ∧
+      c.remoteMaxStreamDataBidiLocal ≤ (step c (.transportParams tp)).1.remoteMaxStreamDataBidiLocal ∧
+      c.remoteMaxStreamDataBidiRemote ≤ (step c (.transportParams tp)).1.remoteMaxStreamDataBidiRemote ∧
+      c.remoteMaxStreamDataUni ≤ (step c (.transportParams tp)).1.remoteMaxStreamDataUni ∧
+      c.remoteMaxStreamsBidi ≤ (step c (.transportParams tp)).1.remoteMaxStreamsBidi ∧
+      c.remoteMaxStreamsUni ≤ (step c (.transportParams tp)).1.remoteMaxStreamsUni) :=
+  rxTransportParams_checked c tp hg
+
+/-- before `fix: client refuses transport parameters reduced after accepted 0-RTT
+    data` (quirk `acceptReducedParams`): a server accepts 0-RTT and answers with a
+    SMALLER per-stream limit; the stream opened under the remembered limit 5000 keeps
+    it, and after the handshake parameters (limit 2 for such streams) NEW data is
+    sent at offsets 3..5.  With the fix the same application closes the connection
+    and leaves the state untouched. -/
+theorem tp_stream_reduction_counterexample :
     let remembered : TP := { maxData := some 10000, maxStreamDataBidiRemote := some 5000, maxStreamsBidi := some 4 }
-    let lowered : TP := { maxData := some 10000, maxStreamDataBidiRemote := some 2, maxStreamsBidi := some 4 }
-    let ops : List Op := [.transportParams remembered, .sendStreamData 0 [1, 2, 3] false, .serve 0 true true 100,
-      .transportParams lowered, .sendStreamData 0 [4, 5] false]
-    WFRun {} ops ∧ (runState {} ops).remoteMaxStreamDataBidiRemote = 2 ∧
-    (step (runState {} ops) (.serve 0 true true 100)).2.frames = [.stream 0 3 2 false] := by
-  refine ⟨?_, by decide, by decide⟩
-  simp only [WFRun, Op.wf, TP.monotone, and_true, true_and]
-  refine ⟨by decide, by decide⟩
+    let lowered : TP := { maxData := some 10000, maxStreamDataBidiRemote := some 2, maxStreamsBidi := some 4,
+                          checked := true }
+    let early : List Op := [.transportParams remembered, .sendStreamData 0 [1, 2, 3] false, .serve 0 true true 100]
+    let ops : List Op := early ++ [.transportParams lowered, .sendStreamData 0 [4, 5] false]
+    let old : Conn := { quirks := { acceptReducedParams := true } }
+    ((runState old ops).remoteMaxStreamDataBidiRemote = 2 ∧
+     (step (runState old ops) (.serve 0 true true 100)).2.frames = [.stream 0 3 2 false]) ∧
+    ((step (runState {} early) (.transportParams lowered)).2 = Out.connError PROTOCOL_VIOLATION ∧
+     (step (runState {} early) (.transportParams lowered)).1.remoteMaxStreamDataBidiRemote = 5000) := by
+  refine ⟨⟨by decide, by decide⟩, by decide, by decide⟩
 
 /-! ## the hypotheses are needed / satisfiable -/
 
@@ -273,6 +312,29 @@ example : Inv (runState {} demoOps) :=
     [.sendStreamData 0 [1, 2, 3, 4, 5] false, .serve 0 true true 100] tpA
     (by simp) (by simp [Op.isTP]) (by simp [WFRunD, Op.wfD])).2
 
+/-- non-vacuity of `invariant_resumed_accepted`: remembered parameters, 0-RTT
+    data, then the checked handshake parameters (raised: accepted; the hypotheses
+    say nothing about them) -/
+example :
+    let hs : TP := { maxData := some 20, maxStreamDataBidiRemote := some 10, maxStreamsBidi := some 1, checked := true }
+    Inv (runState {} (demoOps ++ [.transportParams hs])) ∧
+    (runState {} (demoOps ++ [.transportParams hs])).remoteMaxData = 20 := by
+  intro hs
+  refine ⟨(invariant_resumed_accepted {} ⟨rfl, rfl, rfl, rfl, rfl, rfl⟩ ⟨rfl, rfl⟩ ⟨rfl, rfl, rfl⟩ []
+    [.sendStreamData 0 [1, 2, 3, 4, 5] false, .serve 0 true true 100, .transportParams hs] tpA
+    (by simp) ?_ (by simp [WFRunD, Op.wfD])).2, by decide⟩
+  intro tp htp
+  simp at htp
+  rw [htp]
+
+/-- non-vacuity of `reduced_params_refused`: both outcomes occur -/
+example :
+    let c := runState {} demoOps
+    (TP.reduced c { maxData := some 9, maxStreamDataBidiRemote := some 10, maxStreamsBidi := some 1, checked := true } = true) ∧
+    (TP.reduced c { maxData := some 10, maxStreamDataBidiRemote := some 10, maxStreamsBidi := some 1, checked := true } = false) ∧
+    TP.guarded c { maxData := some 9, checked := true } :=
+  ⟨by decide, by decide, rfl, rfl⟩
+
 /-- non-vacuity of `remote_limits_monotone`: MAX_DATA 7 after MAX_DATA 9 leaves 9 -/
 example : (runState {} [.rxMaxData 9, .rxMaxData 7]).remoteMaxData = 9 ∧
     (0 : Nat) ≤ (runState {} [.rxMaxData 9, .rxMaxData 7]).remoteMaxData :=
@@ -287,12 +349,28 @@ example : FreshAll ({} : Conn) ∧ GWFRun {} G0 (demoOps ++ [.dataDelivery 0 .ac
   · simp only [Op.wf, notBlocked]; decide
   · simp only [wfG]; decide
 
-/-- Transport parameters that REDUCE the connection limit held before (which
-    `_parse_transport_parameters` accepts without a check) break the connection
-    limit: 5 bytes were sent under the remembered limit 10, the new limit is 2. -/
+/-- before the same fix: a server accepts 0-RTT and REDUCES the connection limit:
+    5 bytes were sent under the remembered limit 10, the new limit is 2 — the
+    connection limit is broken.  With the fix the application is refused. -/
 theorem tp_reduction_counterexample :
-    let c := runState {} (demoOps ++ [.transportParams { maxData := some 2 }])
-    ¬ (sumHi c.streams + c.goneSent ≤ c.remoteMaxData) := by decide
+    let lowered : TP := { maxData := some 2, maxStreamDataBidiRemote := some 10, maxStreamsBidi := some 1, checked := true }
+    let old : Conn := { quirks := { acceptReducedParams := true } }
+    let c := runState old (demoOps ++ [.transportParams lowered])
+    ¬ (sumHi c.streams + c.goneSent ≤ c.remoteMaxData) ∧
+    (step (runState {} demoOps) (.transportParams lowered)).2.err = some (.conn PROTOCOL_VIOLATION) := by decide
+
+/-- 0-RTT REJECTED (an unchecked application after the remembered one, today's
+    code): the server's parameters are assigned, nothing is reset.  With a smaller
+    connection limit the sum of highest offsets exceeds the latest limit, and the data
+    of the stream opened under the remembered per-stream limit 10 is offered again
+    (here after the loss of the 0-RTT packet) beyond the server's limit 2: the
+    hypothesis `tp.monotone` cannot be dropped for this case. -/
+theorem tp_rejected_counterexample :
+    let server : TP := { maxData := some 2, maxStreamDataBidiRemote := some 2, maxStreamsBidi := some 1 }
+    let ops := demoOps ++ [.transportParams server, .dataDelivery 0 .lost 0 5 false]
+    ¬ (sumHi (runState {} ops).streams + (runState {} ops).goneSent ≤ (runState {} ops).remoteMaxData) ∧
+    (step (runState {} (demoOps ++ [.transportParams { server with maxData := some 100 },
+        .dataDelivery 0 .lost 0 5 false])) (.serve 0 true true 100)).2.frames = [.stream 0 0 5 false] := by decide
 
 /-- before `fix: unblock every stream allowed by MAX_STREAMS, whatever the
     creation order` (quirk `unblockHeadOnly`): streams 8 then 4 created while the
@@ -396,4 +474,7 @@ end AQ.Props.C06
 #print axioms AQ.Props.C06.remote_limits_monotone_wf
 #print axioms AQ.Props.C06.tp_hypothesis_iff
 #print axioms AQ.Props.C06.invariant_single_handshake
-#print axioms AQ.Props.C06.tp_stream_reduction_example
+#print axioms AQ.Props.C06.tp_stream_reduction_counterexample
+#print axioms AQ.Props.C06.tp_rejected_counterexample
+#print axioms AQ.Props.C06.invariant_resumed_accepted
+#print axioms AQ.Props.C06.reduced_params_refused
